@@ -219,6 +219,17 @@ def bindS (npos : Nat) (kws : List String) : Nat → List OParam → Except Bind
     else
       (bindS npos kws (k + 1) ps).map (none :: ·)
 
+/-- The same loop written as the Python code writes it, with `reversed_args_stack` explicit (the indices
+of the positional arguments not yet consumed, next one first): `if reversed_args_stack: … .pop()`,
+`elif param.name in kwargs`, `elif param.required: raise`, else default / `None`. -/
+def bindStk (kws : List String) : List Nat → List OParam → Except BindErr Binding
+  | _, [] => .ok []
+  | i :: st, _ :: ps => (bindStk kws st ps).map (some (.pos i) :: ·)
+  | [], p :: ps =>
+    if kws.contains p.name then (bindStk kws [] ps).map (some (.kw p.name) :: ·)
+    else if p.required then .error .missing
+    else (bindStk kws [] ps).map (none :: ·)
+
 /-- CPython's binding of `func(*args, **kwargs)` for a function whose parameters are all
 POSITIONAL_OR_KEYWORD. -/
 def bindT (s : OsSig) (c : Call) : Except BindErr Binding :=
